@@ -59,6 +59,10 @@ class _RabbitConsumer(ConsumerT):
                 # if we got cancellation while waiting on our tasks - cancel the tasks
                 get_task.cancel()
                 server_side_cancel_wait_task.cancel()
+                # the message may have been taken from the local queue already: keep it there,
+                # so that finish() can reject it instead of leaving it unacked forever
+                if get_task.done() and not get_task.cancelled() and get_task.exception() is None:
+                    self.queue.put_nowait(get_task.result())
                 raise
 
             # cancel unfinished tasks
